@@ -440,6 +440,55 @@ func (g *Gen) nilCompareHandlers(d int) []Stmt {
 		&If{C: bin("<", v(a), v(b)), Then: []Stmt{emit(str("lt-true"))}, Else: []Stmt{emit(str("lt-false"))}, HasElse: true}}
 }
 
+// handlerReinstall: a handler removed from a metatable, missed once, and installed again must be
+// honoured again (no stale "this metatable has no such handler" knowledge), for __index,
+// __newindex and __call.
+func (g *Gen) handlerReinstall(d int) []Stmt {
+	g.use("meta-handler-removed-and-reinstalled")
+	mt, o := g.fresh("hm"), g.fresh("ho")
+	ix := func(tag string) Expr { return &Func{Params: []string{"t", "k"}, Body: []Stmt{ret(str(tag))}} }
+	ni := func(tag string) Expr {
+		return &Func{Params: []string{"t", "k", "x"}, Body: []Stmt{emit(str(tag), v("k"), v("x"))}}
+	}
+	cl := func(tag string) Expr { return &Func{Params: []string{"self", "a"}, Body: []Stmt{ret(str(tag), v("a"))}} }
+	fld := func(n string) Expr { return &Index{E: v(mt), K: str(n)} }
+	probe := func() []Stmt {
+		return []Stmt{emit(&Index{E: v(o), K: str("x")}), set(&Index{E: v(o), K: str("y")}, num(1)), emit(call("rawget", v(o), str("y"))),
+			set(&Index{E: v(o), K: str("y")}, &Nil{}), emit(call("pcall", &Func{Body: []Stmt{ret(&Call{F: v(o), Args: []Expr{num(5)}})}}))}
+	}
+	st := []Stmt{local1(mt, &Table{Items: []TItem{{Kind: 1, Name: "__index", E: ix("i1")}, {Kind: 1, Name: "__newindex", E: ni("n1")}, {Kind: 1, Name: "__call", E: cl("c1")}}}),
+		local1(o, call("setmetatable", &Table{}, v(mt)))}
+	st = append(st, probe()...)
+	st = append(st, set(fld("__index"), &Nil{}), set(fld("__newindex"), &Nil{}), set(fld("__call"), &Nil{}))
+	for k := g.R.Intn(3); k >= 0; k-- { // missed once or several times
+		st = append(st, probe()...)
+	}
+	if g.R.Bool() {
+		st = append(st, set(fld("other"), num(1))) // a brand-new key in between
+	}
+	st = append(st, set(fld("__index"), ix("i2")), set(fld("__newindex"), ni("n2")), set(fld("__call"), cl("c2")))
+	st = append(st, probe()...)
+	if g.R.Bool() { // handlers given as tables the second time
+		st = append(st, set(fld("__index"), &Table{Items: []TItem{{Kind: 1, Name: "x", E: str("from-table")}}}), local1("sink", &Table{}), set(fld("__newindex"), v("sink")))
+		st = append(st, emit(&Index{E: v(o), K: str("x")}), set(&Index{E: v(o), K: str("z")}, num(2)), emit(call("rawget", v(o), str("z")), &Index{E: v("sink"), K: str("z")}))
+	}
+	return st
+}
+
+// genforFalse: a generic for continues while the first value is not nil; false is not nil.
+func (g *Gen) genforFalse(d int) []Stmt {
+	g.use("genfor-first-value-false")
+	n := g.fresh("gn")
+	lim := 2 + g.R.Intn(3)
+	var first Expr = bin("==", bin("%", v(n), num(2)), num(0))
+	if g.R.Bool() {
+		first = &False{}
+	}
+	it := &Func{Params: []string{"s", "c"}, Body: []Stmt{set(v(n), bin("+", v(n), num(1))),
+		&If{C: bin(">", v(n), num(float64(lim))), Then: []Stmt{ret(&Nil{})}}, ret(first, v(n), v("c"))}}
+	return []Stmt{local1(n, num(0)), &GenFor{Xs: []string{"k", "x", "pc"}, Es: []Expr{it, str("state"), &False{}}, Body: []Stmt{emit(v("k"), v("x"), v("pc"))}}, emit(v(n))}
+}
+
 // wrapErrorInsideCoroutine: a wrapped coroutine dies by error while its resumer is itself a
 // coroutine, which then inspects running()/status; and closures escaped from the dead one.
 func (g *Gen) wrapErrorInsideCoroutine(d int) []Stmt {
